@@ -131,7 +131,17 @@ def ref_job(job):
         n += 1
         oks += got[0] == "ok"
         if list(got) != json.loads(json.dumps(list(want))):
-            bad.append({"prog": job["prog"], "root": job["root"], "input": s, "expected": list(want), "actual": list(got)})
+            sig = None
+            try:
+                # the registered Each finding: the outcome is the one of "a nullable operand may be consumed twice"
+                twice = peg_ref.Ref(job["prog"], keyword_chars=pp.Keyword.DEFAULT_KEYWORD_CHARS,
+                                    ws=pp.ParserElement.DEFAULT_WHITE_CHARS, each_twice=True).parse(job["root"], s)
+                if list(got) == json.loads(json.dumps(list(twice))):
+                    sig = "each_nullable_operand_twice"
+            except (peg_ref.Unsupported, RecursionError):
+                pass
+            bad.append({"prog": job["prog"], "root": job["root"], "input": s, "expected": list(want), "actual": list(got),
+                        "sig": sig})
     return n, uns, bad, oks
 
 
@@ -142,9 +152,10 @@ def run_ref(ctx, stream, jobs):
     ctx.count_cases(stream, n, distinct_keys=[json.dumps([j["prog"], s]) for j in jobs for s in j["inputs"]],
                     outcomes={"compared": n, "accepted": oks, "reference-unsupported": uns, "mismatch": len(bad)},
                     samples=[{"prog": jobs[0]["prog"], "root": jobs[0]["root"], "input": jobs[0]["inputs"][-1]}] if jobs else [])
-    for m in sorted(bad, key=lambda m: (len(m["prog"]), len(m["input"])))[:3]:
+    srt = sorted(bad, key=lambda m: (len(m["prog"]), len(m["input"])))
+    for m in [m for m in srt if m.get("sig")][:1] + [m for m in srt if not m.get("sig")][:3]:
         ctx.fail_input("parse_string disagrees with the PEG reading", {k: m[k] for k in ("prog", "root", "input")},
-                       m["expected"], m["actual"], theorem="C01 (reference interpreter harness/peg_ref.py)",
+                       m["expected"], m["actual"], theorem="C01 (reference interpreter harness/peg_ref.py)", signature=m.get("sig"),
                        how="harness.peg_ref.Ref(prog).parse(root, input) vs gram.build(...).parse_string(input)")
     return bad
 
@@ -176,6 +187,12 @@ def run(ctx):
                          modes=[("none",)]))
     corr_parse.run_jobs(ctx, "model-vs-real:deep", jobs)
     mult = 4 if (ctx.broken and not ctx.fail_inputs) else 1
+    # ---- Each (outside the Lean model: reference only) ------------------------------------------------
+    ej = []
+    for i in range(ctx.budget(3000, 30000) * mult):
+        prog, root, inputs = each_case(random.Random(f"C01-{ctx.seed}-each-{i}"))
+        ej.append(dict(prog=prog, root=root, inputs=inputs))
+    run_ref(ctx, "reference:each", ej)
     run_ref(ctx, "reference:deep", [dict(prog=j["prog"], root=j["root"], inputs=j["inputs"]) for j in jobs])
     if mult > 1:
         more = []
@@ -184,6 +201,114 @@ def run(ctx):
             prog, root, inputs = gen.gen_case(rng, gen.Cfg(**PEG_CFG), 6)
             more.append(dict(prog=prog, root=root, inputs=inputs))
         run_ref(ctx, "reference:search", more)
+
+
+def each_case(rng):
+    """an Each over 2-4 operands drawn from tokens, optional / repeated tokens, sequences (also all-optional ones, chained
+    with + so that streamline() flattens them), groups; inputs = permutations of the operands' texts with omissions and
+    repetitions"""
+    words = ["a", "b", "c", "d", "ee", "f", "gg", "h", "k", "m", "n", "p", "qq", "r", "t", "u"]   # never two equal operands
+    rng.shuffle(words)
+    prog, n = [], [0]
+
+    def fresh(p="x"):
+        n[0] += 1
+        return f"{p}{n[0]}"
+
+    def leaf(w):
+        v = fresh("l")
+        k = rng.random()
+        if k < 0.6:
+            prog.append([v, "Literal", w])
+        elif k < 0.8:
+            prog.append([v, "Keyword", w])
+        else:
+            prog.append([v, "Word", w])
+        return v
+
+    def operand():
+        """-> (variable, list of texts it may consume, in order)"""
+        k = rng.random()
+        w = words.pop()
+        l = leaf(w)
+        if k < 0.25:
+            return l, [w]
+        if k < 0.40:
+            v = fresh("o")
+            prog.append([v, "Opt", l] + ([w.upper()] if rng.random() < 0.3 else []))
+            return v, [w]
+        if k < 0.50:
+            v = fresh("z")
+            prog.append([v, rng.choice(["ZeroOrMore", "OneOrMore"]), l])
+            return v, [w]
+        if k < 0.60:
+            v = fresh("g")
+            prog.append([v, rng.choice(["Group", "Suppress"]), l])
+            return v, [w]
+        # a sequence of 2-3 parts, each plain or optional, chained with '+' (nested And -> flattened by streamline)
+        parts, texts = [], []
+        m = rng.choice([2, 2, 3])
+        all_opt = rng.random() < 0.5
+        for j in range(m):
+            w2 = w if j == 0 else words.pop()
+            l2 = l if j == 0 else leaf(w2)
+            if all_opt or rng.random() < 0.4:
+                if not (j == m - 1 and not all_opt and rng.random() < 0.7):
+                    o = fresh("o")
+                    prog.append([o, "Opt", l2])
+                    l2 = o
+            parts.append(l2)
+            texts.append(w2)
+        if rng.random() < 0.5 and m == 3:
+            inner = fresh("s")
+            prog.append([inner, "+", parts[0], parts[1]])
+            v = fresh("s")
+            prog.append([v, "+", inner, parts[2]])
+        elif m == 3:
+            inner = fresh("s")
+            prog.append([inner, "+", parts[1], parts[2]])
+            v = fresh("s")
+            prog.append([v, "+", parts[0], inner])
+        else:
+            v = fresh("s")
+            prog.append([v, "+", parts[0], parts[1]])
+        return v, texts
+
+    k = rng.choice([2, 2, 3, 3, 4])
+    ops = [operand() for _ in range(k)]
+    if rng.random() < 0.5:
+        root = fresh("E")
+        prog.append([root, "Each", [v for v, _ in ops]])
+    else:
+        root = ops[0][0]
+        for v, _ in ops[1:]:
+            r2 = fresh("E")
+            prog.append([r2, "&", root, v])
+            root = r2
+    if rng.random() < 0.3:
+        t = fresh("t")
+        prog.append([t, "Literal", ";"])
+        r2 = fresh("r")
+        prog.append([r2, "+", root, t])
+        root, tail = r2, " ;"
+    else:
+        tail = ""
+    inputs = []
+    for _ in range(8):
+        seq = []
+        for v, texts in ops:
+            reps = rng.choice([0, 1, 1, 1, 2])
+            for _ in range(reps):
+                seq.append([t for t in texts if rng.random() < 0.8])
+        rng.shuffle(seq)
+        if rng.random() < 0.3 and len(seq) >= 2:
+            # interleave: split one occurrence around another
+            a = seq.pop(0)
+            seq.append(a[:1])
+            seq.insert(0, a[1:])
+        inputs.append(" ".join(t for part in seq for t in part) + tail)
+    inputs.append(tail)
+    return prog, root, inputs
 
 
 def replay(data):
